@@ -1521,6 +1521,7 @@ static void setupOrthogonalLayoutConstraints(Router *router,
                     {
                         // Drop redundant equality constraint.
                         // We know these occur due to cycles of equalities.
+                        delete constraint;
                         it = valid.erase(it);
                     }
                     else
